@@ -1,6 +1,6 @@
 """C13 tuple sketch rules: policy call discipline in update, adapter argument order, filter, A-not-B source,
 intersection re-insertion of matched entries."""
-from astu import strip, strip_all, walk, walkp, txt, short, is_this_field, field_name, stmts_of, always_throws, functions_by, local_decls
+from astu import C, ctxt, gt_pair, eq_const, strip, strip_all, walk, walkp, txt, short, is_this_field, field_name, stmts_of, always_throws, functions_by, local_decls
 from vlib.core import ob
 
 
@@ -72,7 +72,7 @@ def intersection_rebuild(facts):
             continue
         # find `if (match_count == 0) {...} else {...}` : the else must be unconditional and re-insert all matched entries
         def v(n):
-            if n.get("k") == "If" and txt(n["c"]).replace(" ", "") == "(match_count==0)":
+            if n.get("k") == "If" and txt(n["c"]).replace(" ", "") == C("(match_count==0)"):
                 key = "theta_intersection_base::update:rebuild-after-match"
                 e = n.get("e")
                 if e is None or e.get("k") == "If":
